@@ -40,8 +40,43 @@ def _audit(event, args):
                 _events.append({"event": "open-write", "args": p[:200]})
 
 
+_served = []      # (prefix, function url -> bytes)
+
+
+def serve(prefix, fn):
+    """Documents under `prefix` are answered by fn(url) -> bytes through the (patched) urlopen: the library's own
+    urllib transport is exercised without any network."""
+    _served.append((prefix, fn))
+
+
+def unserve_all():
+    del _served[:]
+
+
+class _Response:
+    def __init__(self, data):
+        self._data = data
+
+    def read(self):
+        return self._data
+
+    def __enter__(self):
+        return self
+
+    def __exit__(self, *a):
+        return False
+
+    def close(self):
+        pass
+
+
 def blocked_urlopen(url, *a, **k):
     u = str(getattr(url, "full_url", url))
+    for prefix, fn in _served:
+        if u.startswith(prefix):
+            with _lock:
+                _events.append({"event": "urlopen-served", "args": u[:200]})
+            return _Response(fn(u))
     if u.startswith("file://"):
         # local files (CLI --base-uri fixtures): let the real urlopen read them
         with _lock:
